@@ -145,11 +145,33 @@ impl Property for C07 {
         if let Err(e) = apply_prefs(&prefs) {
             return Outcome::reject(&format!("configuration rejected: {}", e.chars().take(50).collect::<String>()));
         }
+        // scripts on bases that render nothing are rebuilt by the clean-up in ways that are listed findings of C01/C02
+        // (a <none/> can end up as the base of mmultiscripts): their braille is not judged here
+        if crate::props::c01::has_degenerate(&case.tree) {
+            return Outcome::reject("input class with listed canonicalization findings (degenerate child)");
+        }
         let xml = case.tree.to_xml();
         let canon = match api::set_mathml(&xml) {
             Ok(c) => c,
             Err(_) => return Outcome::reject("set_mathml failed"),
         };
+        // a canonical form that is itself malformed (a listed C02 finding for degenerate / inconsistent input) sends
+        // the braille rules into their "unknown element" fall-backs: that is C02's business, not the alphabet's
+        let canon_tree = match parse_xml(&canon) {
+            Ok(t) if crate::props::c02::validate(&t, true).is_empty() => t,
+            _ => return Outcome::reject("canonical MathML is not valid (C02)"),
+        };
+        // characters that canonicalization itself put into the expression (two '|' become U+2016, ...) and for which
+        // the code defines no braille are passed through by design, like uncovered input characters
+        let (short, full) = braille_char_pools(&case.code);
+        let mut passthrough: Vec<char> = vec![];
+        for t in canon_tree.tokens() {
+            for c in t.txt().chars() {
+                if !c.is_ascii() && !short.contains(&c) && !full.contains(&c) && !passthrough.contains(&c) {
+                    passthrough.push(c);
+                }
+            }
+        }
         let ids = crate::hist::ids_of_mathml(&canon);
         let (id, may_highlight) = match case.id_kind {
             0 => (String::new(), false),
@@ -162,12 +184,17 @@ impl Property for C07 {
         let ctx = |b: &str| format!("code={} highlight={} id={:?} prefs={:?}\nmathml: {}\nbraille: {}", case.code, case.highlight, id, case.prefs, xml, b);
         match api::braille(&id) {
             Ok(b) => {
-                if let Some((k, what)) = judge_braille(&case.code, &b, may_highlight) {
+                let judged: String = b.chars().filter(|c| !passthrough.contains(c)).collect();
+                if !passthrough.is_empty() && judged != b {
+                    classes.push("uncovered-character-created-by-canonicalization".into());
+                }
+                if let Some((k, what)) = judge_braille(&case.code, &judged, may_highlight) {
                     // the table row separator U+28CD is taken for a highlight by highlight_braille_chars
                     let k = if k == "cell-code:unexpected-highlight" && b.contains('\u{28CD}') { "cell-code:unexpected-highlight-around-table-row-separator".to_string() } else { k };
                     viols.push((format!("{}:{}", k, case.code), format!("get_braille returned {}\n{}", what, ctx(&b))));
                 }
-                if b.trim_matches(['\u{2800}', ' ']).is_empty() && has_alnum_content(&case.tree) {
+                // (content that canonicalization lost is C01's finding: emptiness is judged against the canonical expression)
+                if b.trim_matches(['\u{2800}', ' ']).is_empty() && has_alnum_content(&case.tree) && has_alnum_content(&canon_tree) {
                     viols.push((format!("empty:{}", case.code), format!("braille is empty for an expression with letters/digits\n{}", ctx(&b))));
                 }
             }
@@ -178,8 +205,22 @@ impl Property for C07 {
             let _ = api::nav_cmd(c);
             if let Ok(b) = api::nav_braille() {
                 classes.push("nav-braille".into());
-                if let Some((k, what)) = judge_braille(&case.code, &b, false) {
-                    let k = if k == "cell-code:unexpected-highlight" && b.contains('\u{28CD}') { "cell-code:unexpected-highlight-around-table-row-separator".to_string() } else { k };
+                let judged: String = b.chars().filter(|c| !passthrough.contains(c)).collect();
+                if let Some((k, what)) = judge_braille(&case.code, &judged, false) {
+                    let mut k = if k == "cell-code:unexpected-highlight" && b.contains('\u{28CD}') { "cell-code:unexpected-highlight-around-table-row-separator".to_string() } else { k };
+                    // the navigation node is one of the empty place holders of mmultiscripts: brailled on its own it falls
+                    // into the rule files' "unknown math m l element" fall-back, whose English text reaches the caller
+                    if let Ok((nid, _)) = api::nav_id() {
+                        let mut tag = String::new();
+                        canon_tree.walk(&mut |n| {
+                            if n.get_attr("id") == Some(nid.as_str()) {
+                                tag = n.tag.clone();
+                            }
+                        });
+                        if tag == "none" || tag == "mprescripts" {
+                            k = "nav-braille-of-empty-script-placeholder".to_string();
+                        }
+                    }
                     viols.push((format!("{}:{}", k, case.code), format!("get_navigation_braille after {} returned {}\n{}", c, what, ctx(&b))));
                 }
             }
